@@ -148,10 +148,36 @@ def program(rng, pid, profile=None):
     return {"pid": pid, "kind": kinds, "steps": steps}
 
 
+def seq_then_edit(rng, pid):
+    """a Sequence registered in a scheduler (scheduler=), a member of it taken out of that
+    scheduler (or moved to another one), then the sequence grows: what the sequence held
+    earlier is none of append()'s business"""
+    def step(op, ident, args=None, req=None, sched=0, flag=False, x=0):
+        return {"op": op, "id": ident, "args": args or [], "req": req or NONE, "sched": sched,
+                "flag": flag, "x": x}
+    k = rng.randint(2, 3)
+    extra = rng.randint(1, 2)
+    kinds = ["job"] * (k + extra) + ["seq", rng.choice(["sched", "pure"]), "sched"]
+    seq, s1, s2 = k + extra + 1, k + extra + 2, k + extra + 3
+    steps = [step("newsched", s1), step("newsched", s2)]
+    for j in range(1, k + extra + 1):
+        steps.append(step("newjob", j, flag=rng.random() < 0.5))
+    steps.append(step("newseq", seq, args=[obj(j) for j in range(1, k + 1)], sched=s1))
+    gone = rng.randint(1, k)
+    steps.append(step("remove", s1, x=gone))
+    if rng.random() < 0.5:
+        steps.append(step("add", s2, args=[obj(gone)]))
+    for j in range(k + 1, k + extra + 1):
+        steps.append(step("append", seq, args=[obj(j)] if rng.random() < 0.7 else [coll("list", [obj(j)])]))
+    if rng.random() < 0.4:
+        steps.append(step("append", seq, args=[]))
+    return {"pid": pid, "kind": kinds, "steps": steps}
+
+
 def programs(tier, seed):
     rng = random.Random("build-%s-%d" % (tier, seed))
     count = 3000 if tier == "quick" else 60000
-    out = []
+    out = [seq_then_edit(rng, 0) for _ in range(60 if tier == "quick" else 600)]
     for i in range(count):
         prof = None if i % 3 else {"max_jobs": 4, "max_seq": 3, "max_steps": 8}
         out.append(program(rng, i + 1, prof))
